@@ -63,18 +63,20 @@ Match(e) == MatchNew(e) /\ MatchDone(e)
 MatchRaised(e) == raised = e.raised
 MatchData(e)   == ~raised => (IF c.op = "read" THEN result ELSE dst) = e.data
 
+\* (bound variables instead of LET: TLC evaluates them once; a LET body that
+\* refers to Traces would re-read the JSON file at every use)
 TraceStep ==
     /\ l <= Len(Traces[tid].ev)
-    /\ LET e == Traces[tid].ev[l] IN
+    /\ \E e \in {Traces[tid].ev[l]} :
          \/ /\ e.e = "start" /\ Start
             /\ Strict => Match(e)
          \/ /\ e.e = "ans"
-            /\ LET S == Tasks(e)
-                   f == [t \in S |-> [k |-> AnsFor(e, t).k, n |-> AnsFor(e, t).n]]
-               IN  /\ Cardinality(S) = Len(e.a)      \* every answer names a pending request
-                   /\ \A t \in S : f[t] \in Choices(t)   \* ... and is what a file server may say
-                   /\ Strict => MatchSize(e)
-                   /\ Answer(S, f)
+            /\ \E S \in {Tasks(e)} :
+                 /\ Cardinality(S) = Len(e.a)      \* every answer names a pending request
+                 /\ \E f \in {[t \in S |-> [k |-> AnsFor(e, t).k, n |-> AnsFor(e, t).n]]} :
+                      /\ \A t \in S : f[t] \in Choices(t)   \* ... and is what a file server may say
+                      /\ Strict => MatchSize(e)
+                      /\ Answer(S, f)
             /\ Strict => Match(e)
          \/ /\ e.e = "end" /\ done
             /\ Strict => (MatchRaised(e) /\ MatchData(e))
